@@ -6,6 +6,7 @@ from depsim.runner import Violation, add_set, bump, digest
 
 class C02(ParserSessionProp):
     id = 'C02'
+    scale_every = {'quick': 300, 'thorough': 100}
     families = FAMILIES_ALL
     max_len = 10
     fault_classes = ('none', 'inband', 'outofband')
